@@ -4,6 +4,7 @@ import (
 	"fmt"
 	"reflect"
 	"runtime/debug"
+	"strings"
 
 	stackage "github.com/JesseCoretta/go-stackage"
 )
@@ -289,6 +290,71 @@ func refAsCond(v any) (stackage.Condition, bool) {
 		return stackage.Condition{}, false
 	}
 	return c, true
+}
+
+// Alias types that the library first meets in hollow form (a nil pointer, a zero value) - the opposite
+// order from the other alias types, whose live values are everywhere. hollowFirst must run before
+// anything else in the process touches them.
+type (
+	StackAliasLateP stackage.Stack     // first seen as a nil pointer
+	StackAliasLateZ stackage.Stack     // first seen as a zero value
+	CondAliasLateP  stackage.Condition // first seen as a nil pointer
+	CondAliasLateZ  stackage.Condition // first seen as a zero value
+)
+
+// hollowFirst shows the hollow forms to every reading entry point, then checks that live values of the
+// same types are recognised. It returns a description of what went wrong ("" if nothing did).
+func hollowFirst() string {
+	var bad []string
+	p := noPanic(func() {
+		h := stackage.And().Push((*StackAliasLateP)(nil), StackAliasLateZ{}, (*CondAliasLateP)(nil), CondAliasLateZ{}, "leaf")
+		_ = h.String()
+		h.IsNesting()
+		h.Unmarshal()
+		h.IsEqual(h)
+		for i := 0; i < h.Len(); i++ {
+			h.Traverse(i, 0)
+			h.Less(i, 0)
+		}
+		stackage.Cond("k", stackage.Eq, (*StackAliasLateP)(nil)).IsNesting()
+		stackage.Cond("k", stackage.Eq, StackAliasLateZ{}).Len()
+		lp, lz := StackAliasLateP(stackage.Or().Push("in")), StackAliasLateZ(stackage.List().Push("in"))
+		cp, cz := CondAliasLateP(stackage.Cond("kw", stackage.Eq, "v")), CondAliasLateZ(stackage.Cond("kw", stackage.Ne, "w"))
+		for _, x := range []struct {
+			n string
+			v any
+		}{{"pointer to an alias first seen as a nil pointer", &lp}, {"alias first seen as a nil pointer", lp}, {"alias first seen as a zero value", lz}, {"pointer to an alias first seen as a zero value", &lz}} {
+			live := stackage.And().Push("a", x.v)
+			if !live.IsNesting() {
+				bad = append(bad, "IsNesting false for a Stack holding a live "+x.n)
+			}
+			if v, ok := live.Traverse(1, 0); !ok || v != "in" {
+				bad = append(bad, fmt.Sprintf("Traverse(1,0) through a live %s = (%v,%v)", x.n, v, ok))
+			}
+			if str := live.String(); strings.Contains(str, "UNKNOWN") || !strings.Contains(str, "in") {
+				bad = append(bad, fmt.Sprintf("a Stack holding a live %s renders %q", x.n, str))
+			}
+			if _, ok := stackage.ConvertStack(x.v); !ok {
+				bad = append(bad, "ConvertStack false for a live "+x.n)
+			}
+		}
+		for _, x := range []struct {
+			n string
+			v any
+		}{{"pointer to a Condition alias first seen as a nil pointer", &cp}, {"Condition alias first seen as a nil pointer", cp}, {"Condition alias first seen as a zero value", cz}, {"pointer to a Condition alias first seen as a zero value", &cz}} {
+			live := stackage.And().Push("a", x.v)
+			if str := live.String(); strings.Contains(str, "UNKNOWN") || !strings.Contains(str, "kw") {
+				bad = append(bad, fmt.Sprintf("a Stack holding a live %s renders %q", x.n, str))
+			}
+			if _, ok := stackage.ConvertCondition(x.v); !ok {
+				bad = append(bad, "ConvertCondition false for a live "+x.n)
+			}
+		}
+	})
+	if p != "" {
+		bad = append(bad, "panic: "+p)
+	}
+	return strings.Join(bad, "; ")
 }
 
 // fillMode derives a construction history from a description deterministically.
